@@ -405,7 +405,7 @@ def c_intersects_bounds(rng):
 
 # ------------------------------------------------------------------ C02
 
-@check(('C02', 'C17', 'C16'), 'pointarray.intersects')
+@check(('C02', 'C17', 'C16', 'C05'), 'pointarray.intersects')
 def c_point_intersects(rng):
     pts = gen.case('point', rng, p_missing=0.2)
     skind = rng.choice(gen.KINDS)
@@ -446,7 +446,7 @@ def c_point_intersects(rng):
     return out
 
 
-@check(('C02',), 'pointarray.intersects-special-positions')
+@check(('C02', 'C05'), 'pointarray.intersects-special-positions')
 def c_point_intersects_special(rng):
     """points placed exactly on vertices, on segment interiors, on the horizontal ray through a vertex"""
     skind = rng.choice(['line', 'multiline', 'polygon', 'multipolygon', 'multipoint'])
